@@ -415,7 +415,12 @@ fn mutate_real(
         .unwrap()
         .sample(rng)
     {
+        let orig_value = value;
         let mut value = mutate_cauchy(value, scale, mutation_params, rng);
+
+        if !value.is_finite() {
+            return orig_value;
+        }
 
         if let Some(min) = min {
             value = value.max(min);
